@@ -46,6 +46,16 @@ def run(ctx):
         wevents.append(roundtrip.data_event(inst, rng, prop="C06"))
         ctx.evaluations += 1
         ctx.case(["write-side", inst])
+    # wrapped output whose every physical line carries a hyphen (negative index, negative NULL in every other cell): lasio's
+    # hyphen heuristic then re-sniffs the column count; curve counts that wrap into equal lines (8 = 4 + 4) and unequal ones
+    for n in (5, 8, 9, 12, 14):
+        for eng in ("numpy", "normal"):
+            for v in ("1.2", "2.0"):
+                inst = {"ncurves": n, "nrows": 3, "version": v, "wrap": True, "engine": eng, "mh": False, "mask": "all", "pres": 1,
+                        "hyphens": True}
+                wevents.append(roundtrip.data_event(inst, rng, prop="C06"))
+                ctx.evaluations += 1
+                ctx.case(["write-side", inst])
     slim = [[roundtrip.slim_data(e)] for e in wevents]
     fails, _ = ctx.validate("Trace_RoundTrip", {"traces": slim})
     for tid, l, clause in fails:
